@@ -494,6 +494,22 @@ fn thread_op(k: usize, guards: &mut Vec<G>, w: &[&str]) -> Option<String> {
             }
             _ => "bad-op most recent guard is not a collector".into(),
         },
+        ["unwind"] => {
+            // a panic unwinds through every guard of this thread (newest first) and is caught
+            struct Rev<'a>(&'a mut Vec<G>);
+            impl Drop for Rev<'_> {
+                fn drop(&mut self) {
+                    while let Some(g) = self.0.pop() {
+                        drop(g);
+                    }
+                }
+            }
+            let r = catch_unwind(AssertUnwindSafe(|| {
+                let _rev = Rev(guards);
+                panic!("unwind");
+            }));
+            if r.is_err() { "ok".into() } else { "bad-op no panic".into() }
+        }
         ["closeUnder"] => {
             // release the scope / collector guard beneath the still-open local spans first
             let mut i = guards.len();
@@ -901,6 +917,18 @@ fn run_case() {
                         Err(_) => "timeout".into(),
                     }
                 }
+            }
+            ["idSweep", n] => {
+                // n short-lived threads, one after another, each draws its first span id: how many pairs of
+                // threads drew the same one (= share an id prefix)?
+                let n: usize = n.parse().unwrap_or(0);
+                let mut seen: HashMap<u64, u64> = HashMap::new();
+                for _ in 0..n {
+                    let id = std::thread::spawn(|| fastrace::collector::SpanId::next_id().0).join().unwrap_or(0);
+                    *seen.entry(id).or_insert(0) += 1;
+                }
+                let pairs: u64 = seen.values().map(|c| c * (c - 1) / 2).sum();
+                format!("sweep n={} dup_pairs={}", n, pairs)
             }
             ["sleep", us] => {
                 std::thread::sleep(Duration::from_micros(us.parse().unwrap_or(0)));
